@@ -456,7 +456,7 @@ def prove(chk, prop_id, modules, theorems, role="theorem"):
 
 # ----------------------------------------------------------------------------- label canonicalisation
 
-_LABEL_RE = re.compile(r"(?<![\w])(?:lab(\d+)|([A-Za-z_]\w*?)_(\d+)(?=(?:_\w+)?(?!\w)))")
+_LABEL_RE = re.compile(r"(?<![\w])(?:lab(\d+)(?![\w(])|([A-Za-z_]\w*?)_(\d+)(?=(?:_\w+)?(?!\w)))")
 
 
 def canon_labels(text, type_names):
